@@ -37,6 +37,11 @@ def confirm(cfg, rp, kinds, extra):
                 if st.name == 'DONE' and KINDS[kinds[j]] == 'done' and 'result' not in ent:
                     return (f'task {cfg.names[i]} started and sees dependency {cfg.names[j]} DONE but its '
                             f'environment update is not readable yet: {ent!r}')
+                if st.name == 'DONE' and KINDS[kinds[j]] == 'done' and getattr(cfg, 'shared', False):
+                    sh = snap.get('shared')
+                    if not isinstance(sh, dict) or cfg.names[j] not in sh:
+                        return (f'task {cfg.names[i]} started and sees dependency {cfg.names[j]} DONE but the part of its update '
+                                f'under the shared key is not readable: shared = {sh!r}')
     return None
 
 
@@ -49,12 +54,17 @@ def prop(an, prod):
             'queries': [(Q1, lambda u: u.at(u.K, prod.pre['bad01']), confirm)]}
 
 
-def _job(n, hard, soft, w, tier, seed=0):
-    return run_job(Config(n, hard, soft, w), prop, tier, seed)
+def _job(n, hard, soft, w, tier, shared=False, seed=0):
+    return run_job(Config(n, hard, soft, w, shared=shared), prop, tier, seed)
 
 
 def jobs(tier):
-    return sched.standard_jobs(tier, _job)
+    out = sched.standard_jobs(tier, _job)
+    # updates that also write under ONE environment key shared by all tasks (atomicity of Env.apply):
+    # two publishers and a reader, two workers
+    c = Config(3, [(2, 0), (2, 1)], [], 2, shared=True)
+    out.append((cfg_name(c) + '-shared', _job, dict(n=3, hard=[(2, 0), (2, 1)], soft=[], w=2, tier=tier, shared=True)))
+    return out
 
 
 def replay(rp):
